@@ -182,3 +182,7 @@ def replay(case):
     ra = case.get("return_all", (case.get("kwargs") or {}).get("return_all", False))
     pol = case.get("policy") or "default"
     run_case(_C(), gd, case.get("k"), "len_lex" if "len_lex" in str(pol) else "default", bool(ra))
+
+
+def install_for_suite():
+    install()
